@@ -114,3 +114,300 @@ def c03_stage(prop, tier, seed, replay):
         rep["floors"]["labs-built"] = [n, sum(1 for k in meta if not k.startswith("pin_"))]
     rep["notes"].append("every declared type, error, client, server trait and Endpoints type is named by full module path in the lab driver, so a missing re-export is a compile error")
     return rep
+
+
+# ------------------------------------------------------------------------------------------------
+# C02 / C10: wire format of generated types
+
+def strict_loads(text):
+    def bad_const(x):
+        raise ValueError("non-standard JSON constant " + x)
+    return json.loads(text, parse_constant=bad_const)
+
+
+def type_shape(g, d):
+    def tk(t):
+        k = t["type"]
+        if k == "primitive":
+            return t["primitive"][:3]
+        if k in ("optional", "list", "set"):
+            return k[0] + "<" + tk(t[k]["itemType"]) + ">"
+        if k == "map":
+            return "m<" + tk(t["map"]["keyType"]) + "," + tk(t["map"]["valueType"]) + ">"
+        if k == "external":
+            return "x<" + tk(t["external"]["fallback"]) + ">"
+        return g.by_name[t["reference"]["name"]].kind[:2]
+    if d.kind == "alias":
+        return "alias:" + tk(d.alias)
+    if d.kind == "enum":
+        return "enum:%d" % len(d.values)
+    return d.kind + ":" + ",".join(sorted(set(tk(t) for (_, t, _) in d.fields)))
+
+
+def plain_capable(g, d):
+    """Enums and aliases whose target is a PLAIN scalar (not any / binary / collections)."""
+    if d.kind == "enum":
+        return True
+    if d.kind != "alias":
+        return False
+    t = d.alias
+    while t["type"] == "reference":
+        dd = g.by_name[t["reference"]["name"]]
+        if dd.kind == "enum":
+            return True
+        if dd.kind != "alias":
+            return False
+        t = dd.alias
+    return t["type"] == "primitive" and t["primitive"] not in ("ANY", "BINARY")
+
+
+def c10_labs(tier, seed):
+    """The same definition built non-exhaustive and exhaustive (cross-configuration differential)."""
+    from gen import LabGen, Profile
+    rr = random.Random(seed * 7001 + 10)
+    labs = []
+    for i in range(2 if tier == "quick" else 8):
+        cs = rr.getrandbits(48)
+        se, strip = rr.random() < 0.5, rr.choice([None, "com.verif", "com.verif.lab"])
+        for ex in (False, True):
+            g = LabGen(cs, Profile(n_types=40 if tier == "quick" else 60, services=0, errors=0, hostile_names=True))
+            labs.append((cs, {"exhaustive": ex, "serialize_empty": se, "strip": strip}, g))
+    return labs
+
+
+def c02_labs(tier, seed, replay):
+    from gen import LabGen, Profile
+    rr = random.Random(seed * 7001 + 2)
+    n = 3 if tier == "quick" else 12
+    cfgs = [{"exhaustive": False, "serialize_empty": False, "strip": "com.verif"},
+            {"exhaustive": True, "serialize_empty": True, "strip": "com.verif.lab"},
+            {"exhaustive": False, "serialize_empty": True, "strip": None}]
+    labs = []
+    for i in range(n):
+        cs = rr.getrandbits(48)
+        cfg = dict(cfgs[i % 3]) if i < 3 else {"exhaustive": rr.random() < 0.5, "serialize_empty": rr.random() < 0.5, "strip": rr.choice([None, "com", "com.verif", "com.verif.lab"])}
+        g = LabGen(cs, Profile(n_types=40 if tier == "quick" else 60, services=0, errors=0, hostile_names=True))
+        labs.append((cs, cfg, g))
+    return labs
+
+
+def wire_stage(prop, tier, seed, replay):
+    """Shared by C02 and C10 (C10 looks only at the enum / union cases of the same run)."""
+    import wire
+    build(["genrun"])
+    labs = c10_labs(tier, seed) if prop == "C10" else c02_labs(tier, seed, replay)
+    listed_outputs = {}
+    specs = []
+    for i, (cs, cfg, g) in enumerate(labs):
+        ir = g.ir()
+        plain = [d.name for d in g.types if plain_capable(g, d)]
+        specs.append({"name": "wire%d" % i, "ir": ir, "cfg": cfg, "driver": lab.driver_source(ir, cfg, plain_types=plain)})
+    res = lab.build_labs("wire-%s" % tier, specs)
+    rep = empty_report(prop)
+    distinct = set()
+    per_type = 10 if tier == "quick" else 24
+    for i, (cs, cfg, g) in enumerate(labs):
+        name = "wire%d" % i
+        if res.gen.get(name, {}).get("status") != "ok" or not res.compiled.get(name):
+            # generation / compilation problems are C03's business; here the lab is simply unusable
+            raise Inconclusive("lab %s did not build (see ./check C03): %s %s" % (name, res.gen.get(name), res.errors.get(name)))
+        # C10: both builds of a definition get the same values (model drawn as non-exhaustive)
+        r = random.Random(cs ^ 0xC02)
+        c = wire.Ctx(g, r, cfg["exhaustive"] and prop != "C10", cfg["serialize_empty"])
+        cases, info = [], {}
+        cid = 0
+        for d in g.types:
+            t = d.ref()
+            for k in range(per_type):
+                try:
+                    v = wire.gen_value(c, t)
+                except wire.NoValue:
+                    break
+                docs = [("canonical", wire.render(c, v, t, wire.Style(serialize_empty=cfg["serialize_empty"])), None)]
+                docs.append(("non-canonical", wire.render(c, v, t, wire.Style(r, True)), None))
+                sites = list(wire.fault_sites(c, v, t))
+                r.shuffle(sites)
+                seen_cls = set()
+                for f in sites:
+                    if f[3] in seen_cls or len(seen_cls) >= 4:
+                        continue
+                    seen_cls.add(f[3])
+                    docs.append((f[3], wire.render(c, v, t, wire.Style(), fault=f), f))
+                for cls, doc, f in docs:
+                    cid += 1
+                    cases.append({"id": cid, "ty": d.name, "op": "de", "doc": doc})
+                    info[cid] = (d, v, cls, doc)
+            if prop in ("C10",) and d.kind in ("enum", "union"):
+                for cls, doc in unknown_docs(r, d):
+                    cid += 1
+                    cases.append({"id": cid, "ty": d.name, "op": "de", "doc": doc})
+                    info[cid] = (d, None, cls, doc)
+        results = lab.run_lab(res, name, cases)
+        if "__crash__" in results:
+            rep["violations"].append(violation("wire", cs, "lab-crashed", {"config": cfg, "crash": results["__crash__"]}))
+            continue
+        c.exhaustive = cfg["exhaustive"]
+        for cid, (d, v, cls, doc) in info.items():
+            out = results.get(cid)
+            if prop == "C10" and v is not None and value_has_unknown_variant(v):
+                continue   # drawn with the non-exhaustive model; not a listed value
+            judge_wire(prop, rep, distinct, c, g, cs, cfg, d, v, cls, doc, out)
+            if prop == "C10" and d.kind in ("enum", "union") and cls in ("canonical", "non-canonical", "unknown/listed-enum-value") and out and "client" in out:
+                key = (cs, d.name, doc)
+                mine = (json.dumps(out["client"]), json.dumps(out["server"]))
+                if key in listed_outputs and listed_outputs[key][1] != mine:
+                    rep["violations"].append(violation("wire", cs, "listed-value-behaves-differently-when-exhaustive:" + d.kind,
+                                                       {"type": d.name, "document": doc[:300], "non_exhaustive": listed_outputs[key][1], "exhaustive": mine}))
+                elif key not in listed_outputs:
+                    listed_outputs[key] = (cfg["exhaustive"], mine)
+                else:
+                    rep["matrix"]["differential/listed-values-compared"] = rep["matrix"].get("differential/listed-values-compared", 0) + 1
+    rep["distinct"] = sorted(distinct)
+    if not replay:
+        need = 25 if prop == "C02" else 6
+        rep["floors"]["case-classes"] = [need, len([k for k in rep["matrix"] if k.startswith("class/")])]
+    rep["violations"] = rep["violations"][:150]
+    return rep
+
+
+def judge_wire(prop, rep, distinct, c, g, cs, cfg, d, v, cls, doc, out):
+    import wire
+    if prop == "C10" and not (d.kind in ("enum", "union") or cls.startswith("exhaustive/") or cls.startswith("unknown/")):
+        return
+    if prop == "C02" and cls.startswith("unknown/"):
+        return
+    rep["evaluations"] += 1
+    rep["matrix"]["class/" + cls] = rep["matrix"].get("class/" + cls, 0) + 1
+    distinct.add(fnv("%s|%s|%s|%s" % (type_shape(g, d), cls, cfg["exhaustive"], cfg["serialize_empty"])))
+    det = {"type": d.name, "kind": d.kind, "class": cls, "document": doc[:500], "config": cfg, "observed": json.dumps(out)[:700]}
+    def fail(sig):
+        rep["violations"].append(violation("wire", cs, sig, det))
+    if out is None or "panic" in out or "harness_error" in out:
+        return fail("panic-or-missing:" + cls)
+    client, server, extra = out["client"], out["server"], out.get("extra", {})
+    if len(rep["samples"]) < 4 and cls in ("non-canonical", "union-type-member-mismatch", "unknown-member"):
+        rep["samples"].append({"sub": "wire", "case_seed": cs, "type": d.name, "class": cls, "document": doc[:300], "client": json.dumps(client)[:200], "server": json.dumps(server)[:120]})
+    if cls.startswith("unknown/"):
+        return judge_unknown(rep, det, cfg, d, cls, doc, client, server, extra, fail)
+    valid = cls in ("canonical", "non-canonical")
+    if valid or cls == "unknown-member":
+        sides = [("client", client)] + ([("server", server)] if valid else [])
+        for side_name, side in sides:
+            if "ok" not in side:
+                return fail("rejected-valid-document:%s:%s" % (side_name, d.kind))
+            try:
+                got = strict_loads(side["ok"])
+            except Exception as e:
+                det["parse_error"] = str(e)
+                return fail("output-not-standard-json:" + d.kind)
+            try:
+                wire.check(c, v, d.ref(), got)
+            except wire.Mismatch as e:
+                det["mismatch"] = str(e)[:400]
+                return fail("non-canonical-output:%s:%s" % (d.kind, cls))
+        if cls == "unknown-member":
+            if "err" not in server:
+                return fail("server-accepted-unknown-member")
+            return
+        for flag in ("same_twice", "reparse_equal", "smile_roundtrip"):
+            if extra.get(flag) is False:
+                if flag == "smile_roundtrip" and value_has_any(v):
+                    # `any` payloads compare by integer width; Smile narrows integers. The property
+                    # is about JSON documents (Smile values are C01's), so this is only counted.
+                    rep["observed_only"]["smile-roundtrip-of-any-payload-not-equal"] = rep["observed_only"].get("smile-roundtrip-of-any-payload-not-equal", 0) + 1
+                    continue
+                return fail("unstable:%s:%s" % (flag, d.kind))
+        return
+    # single-fault invalid documents must be rejected by both deserializers
+    for side_name, side in (("client", client), ("server", server)):
+        if "ok" in side:
+            return fail("accepted-invalid-document:%s:%s" % (side_name, cls))
+
+
+def value_has_unknown_variant(v):
+    if not isinstance(v, tuple):
+        return False
+    if len(v) == 4 and v[0] == "union" and v[2] is None:
+        return True
+    for x in v[1:]:
+        if isinstance(x, tuple) and value_has_unknown_variant(x):
+            return True
+        if isinstance(x, list):
+            for y in x:
+                if isinstance(y, tuple) and (value_has_unknown_variant(y) or any(isinstance(z, tuple) and value_has_unknown_variant(z) for z in y)):
+                    return True
+    return False
+
+
+def value_has_any(v):
+    if not isinstance(v, tuple):
+        return False
+    if (len(v) == 2 and v[0] == "any" and not isinstance(v[1], tuple)) or (len(v) == 4 and v[0] == "union" and v[2] is None):
+        return True
+    for x in v[1:]:
+        if isinstance(x, tuple) and value_has_any(x):
+            return True
+        if isinstance(x, list):
+            for y in x:
+                if isinstance(y, tuple) and (value_has_any(y) or any(isinstance(z, tuple) and value_has_any(z) for z in y)):
+                    return True
+    return False
+
+
+def unknown_docs(r, d):
+    """C10 workload: unlisted well-formed enum names / unlisted variants with arbitrary payloads,
+    plus every listed value (must never be classified as unknown)."""
+    out = []
+    if d.kind == "enum":
+        for v in d.values:
+            out.append(("unknown/listed-enum-value", json.dumps(v)))
+        names = ["ZZ_FUTURE", "A", "X9", "UNKNOWN", "NOT_%s" % (d.values[0] if d.values else "X")]
+        if d.values:
+            names += [d.values[0] + "_", d.values[0] + "2", "_" + d.values[0] if False else d.values[0][:-1] or "Q"]
+        for n in names:
+            if n and n not in d.values:
+                out.append(("unknown/unlisted-enum-value", json.dumps(n)))
+    else:
+        payloads = ["null", "1", "-0.5", "\"NaN\"", "\"text\"", "[]", "[1,[2,{\"a\":null}]]", "{}", "{\"type\":\"nested\",\"nested\":{\"k\":[true]}}", "{\"deep\":{\"deeper\":{\"deepest\":[1,2,3]}}}"]
+        listed = [f[0] for f in d.fields]
+        for name in ["zzFuture", "unknown", "Type", "", "ünï", "value"] + ([listed[0] + "2"] if listed else []):
+            if name in listed or name == "type":
+                continue
+            p = r.choice(payloads)
+            if r.random() < 0.5:
+                out.append(("unknown/unlisted-variant", "{\"type\":%s,%s:%s}" % (json.dumps(name), json.dumps(name), p)))
+            else:
+                out.append(("unknown/unlisted-variant", "{%s:%s,\"type\":%s}" % (json.dumps(name), p, json.dumps(name))))
+    return out
+
+
+def judge_unknown(rep, det, cfg, d, cls, doc, client, server, extra, fail):
+    import wire
+    want = json.loads(doc)
+    if cls == "unknown/listed-enum-value":
+        for side in (client, server):
+            if "ok" not in side or json.loads(side["ok"]) != want:
+                return fail("listed-value-not-roundtripped:enum")
+        if extra.get("debug_head", "").startswith("Unknown"):
+            return fail("listed-value-classified-unknown:enum")
+        return
+    if cfg["exhaustive"]:
+        for side_name, side in (("client", client), ("server", server)):
+            if "ok" in side:
+                return fail("exhaustive-accepted-unlisted:%s:%s" % (d.kind, side_name))
+        return
+    for side_name, side in (("client", client), ("server", server)):
+        if "ok" not in side:
+            return fail("unlisted-rejected:%s:%s" % (d.kind, side_name))
+        try:
+            got = strict_loads(side["ok"])
+        except Exception:
+            return fail("output-not-standard-json:" + d.kind)
+        if not wire.any_equiv(want, got):
+            det["reserialized"] = side["ok"][:300]
+            return fail("unlisted-not-roundtripped:" + d.kind)
+    if not extra.get("debug_head", "").startswith("Unknown"):
+        return fail("unlisted-not-exposed-as-unknown:" + d.kind)
+    for flag in ("same_twice", "reparse_equal"):
+        if extra.get(flag) is False:
+            return fail("unstable:%s:%s" % (flag, d.kind))
